@@ -246,4 +246,470 @@ theorem schedMap_eq_map {α β : Type} (assign : List Nat) (n : Nat) (hn : 0 < n
   exact range_filterMap_getElem f xs
 
 
+/-! ### lazy views read in any order -/
+
+theorem nodup_getElem?_inj {α} : ∀ (l : List α) (i j : Nat) (a : α), l.Nodup → l[i]? = some a → l[j]? = some a → i = j := by
+  intro l
+  induction l with
+  | nil => intro i j a _ h; simp at h
+  | cons x xs ih =>
+    intro i j a hnd hi hj
+    rw [List.nodup_cons] at hnd
+    cases i with
+    | zero =>
+      cases j with
+      | zero => rfl
+      | succ j =>
+        simp at hi hj
+        subst hi
+        exact absurd (List.mem_of_getElem? hj) hnd.1
+    | succ i =>
+      cases j with
+      | zero =>
+        simp at hi hj
+        subst hj
+        exact absurd (List.mem_of_getElem? hi) hnd.1
+      | succ j =>
+        simp at hi hj
+        rw [ih i j a hnd.2 hi hj]
+
+theorem viewSim_spec {h : Heap} {s : Sim} {h' : Heap} {v : View} (hv : viewSim h s = .ok (h', v)) :
+    ∃ c c', h[s.cell]? = some c ∧ viewPure { content := c, segs := s.segs, nan := s.nan } = .ok v ∧ h' = h.set s.cell c' := by
+  unfold viewSim at hv
+  cases hr : h.read s.cell with
+  | error e => rw [hr] at hv; cases hv
+  | ok c =>
+    rw [hr] at hv
+    simp only at hv
+    cases hs : viewSegs s.nan c s.segs with
+    | error e => rw [hs] at hv; cases hv
+    | ok r =>
+      obtain ⟨c', rs⟩ := r
+      rw [hs] at hv
+      simp only at hv
+      cases hv
+      refine ⟨c, c', (read_ok_lt hr).2, ?_, rfl⟩
+      simp [viewPure, hs]
+
+/-- what a recorded view must be: the pure view of what the result's cell held BEFORE any reading -/
+def ViewOf (sims : List Sim) (h0 : Heap) (j : Nat) (v : View) : Prop :=
+  ∃ s c, sims[j]? = some s ∧ h0[s.cell]? = some c ∧
+    viewPure { content := c, segs := s.segs, nan := s.nan } = .ok v
+
+theorem readViews_spec (sims : List Sim) (hnd : (sims.map (·.cell)).Nodup) (h0 : Heap) :
+    ∀ (order : List Nat) (h : Heap) (memo : List (Nat × View)) (h' : Heap) (memo' : List (Nat × View)),
+      (∀ j s, sims[j]? = some s → memo.lookup j = none → h[s.cell]? = h0[s.cell]?) →
+      (∀ j v, (j, v) ∈ memo → ViewOf sims h0 j v) →
+      readViews sims h memo order = .ok (h', memo') →
+      (∀ j v, (j, v) ∈ memo' → ViewOf sims h0 j v) := by
+  intro order
+  induction order with
+  | nil =>
+    intro h memo h' memo' _ hm hr
+    simp [readViews] at hr
+    obtain ⟨_, rfl⟩ := hr
+    exact hm
+  | cons i rest ih =>
+    intro h memo h' memo' hinv hm hr
+    unfold readViews at hr
+    cases hl : memo.lookup i with
+    | some v0 =>
+      rw [hl] at hr
+      exact ih h memo h' memo' hinv hm hr
+    | none =>
+      rw [hl] at hr
+      simp only at hr
+      cases hsi : sims[i]? with
+      | none => rw [hsi] at hr; cases hr
+      | some s =>
+        rw [hsi] at hr
+        simp only at hr
+        cases hv : viewSim h s with
+        | error e => rw [hv] at hr; cases hr
+        | ok r =>
+          obtain ⟨h2, v⟩ := r
+          rw [hv] at hr
+          simp only at hr
+          obtain ⟨c, c', hc, hpure, hset⟩ := viewSim_spec hv
+          refine ih h2 (memo ++ [(i, v)]) h' memo' ?_ ?_ hr
+          · intro j s' hj hlj
+            rw [List.lookup_append] at hlj
+            have hjn : memo.lookup j = none := by
+              cases hm' : memo.lookup j with
+              | none => rfl
+              | some x => rw [hm'] at hlj; simp at hlj
+            have hji : j ≠ i := by
+              intro heq
+              subst heq
+              rw [hjn] at hlj
+              simp [List.lookup] at hlj
+            have hcell : s.cell ≠ s'.cell := by
+              intro heq
+              apply hji
+              apply nodup_getElem?_inj (sims.map (·.cell)) j i s'.cell hnd
+              · simp [hj]
+              · simp [hsi, heq]
+            rw [hset, List.getElem?_set_ne hcell]
+            exact hinv j s' hj hjn
+          · intro j w hjw
+            rcases List.mem_append.mp hjw with hjw | hjw
+            · exact hm j w hjw
+            · simp at hjw
+              obtain ⟨rfl, rfl⟩ := hjw
+              refine ⟨s, c, hsi, ?_, hpure⟩
+              rw [← hinv j s hsi hl]; exact hc
+
+
+theorem viewSim_frame {h : Heap} {s : Sim} {h' : Heap} {v : View} (hv : viewSim h s = .ok (h', v))
+    (k : Nat) (hk : k ≠ s.cell) : h'[k]? = h[k]? := by
+  obtain ⟨c, c', _, _, hset⟩ := viewSim_spec hv
+  rw [hset, List.getElem?_set_ne (Ne.symm hk)]
+
+theorem readViews_frame (sims : List Sim) (k : Nat) (hk : ∀ s, s ∈ sims → k ≠ s.cell) :
+    ∀ (order : List Nat) (h : Heap) (memo : List (Nat × View)) (h' : Heap) (memo' : List (Nat × View)),
+      readViews sims h memo order = .ok (h', memo') → h'[k]? = h[k]? := by
+  intro order
+  induction order with
+  | nil => intro h memo h' memo' hr; simp [readViews] at hr; rw [hr.1]
+  | cons i rest ih =>
+    intro h memo h' memo' hr
+    unfold readViews at hr
+    cases hl : memo.lookup i with
+    | some v0 => rw [hl] at hr; exact ih h memo h' memo' hr
+    | none =>
+      rw [hl] at hr
+      simp only at hr
+      cases hsi : sims[i]? with
+      | none => rw [hsi] at hr; cases hr
+      | some s =>
+        rw [hsi] at hr
+        simp only at hr
+        cases hv : viewSim h s with
+        | error e => rw [hv] at hr; cases hr
+        | ok r =>
+          obtain ⟨h2, v⟩ := r
+          rw [hv] at hr
+          simp only at hr
+          rw [ih h2 _ h' memo' hr]
+          exact viewSim_frame hv k (hk s (List.mem_of_getElem? hsi))
+
+theorem readViews_mono (sims : List Sim) :
+    ∀ (order : List Nat) (h : Heap) (memo : List (Nat × View)) (h' : Heap) (memo' : List (Nat × View)),
+      readViews sims h memo order = .ok (h', memo') →
+      ∀ j v, memo.lookup j = some v → memo'.lookup j = some v := by
+  intro order
+  induction order with
+  | nil => intro h memo h' memo' hr j v hj; simp [readViews] at hr; rw [← hr.2]; exact hj
+  | cons i rest ih =>
+    intro h memo h' memo' hr j v hj
+    unfold readViews at hr
+    cases hl : memo.lookup i with
+    | some v0 => rw [hl] at hr; exact ih h memo h' memo' hr j v hj
+    | none =>
+      rw [hl] at hr
+      simp only at hr
+      cases hsi : sims[i]? with
+      | none => rw [hsi] at hr; cases hr
+      | some s =>
+        rw [hsi] at hr
+        simp only at hr
+        cases hv : viewSim h s with
+        | error e => rw [hv] at hr; cases hr
+        | ok r =>
+          obtain ⟨h2, w⟩ := r
+          rw [hv] at hr
+          simp only at hr
+          apply ih h2 _ h' memo' hr j v
+          rw [List.lookup_append, hj]; rfl
+
+/-- every requested result has been read when the reading succeeds -/
+theorem readViews_complete (sims : List Sim) :
+    ∀ (order : List Nat) (h : Heap) (memo : List (Nat × View)) (h' : Heap) (memo' : List (Nat × View)),
+      readViews sims h memo order = .ok (h', memo') →
+      ∀ i, i ∈ order → ∃ v, memo'.lookup i = some v := by
+  intro order
+  induction order with
+  | nil => intro h memo h' memo' _ i hi; cases hi
+  | cons i0 rest ih =>
+    intro h memo h' memo' hr i hi
+    have hr0 := hr
+    unfold readViews at hr
+    cases hl : memo.lookup i0 with
+    | some v0 =>
+      rw [hl] at hr
+      rcases List.mem_cons.mp hi with rfl | hi
+      · exact ⟨v0, readViews_mono sims rest h memo h' memo' hr _ v0 hl⟩
+      · exact ih h memo h' memo' hr i hi
+    | none =>
+      rw [hl] at hr
+      simp only at hr
+      cases hsi : sims[i0]? with
+      | none => rw [hsi] at hr; cases hr
+      | some s =>
+        rw [hsi] at hr
+        simp only at hr
+        cases hv : viewSim h s with
+        | error e => rw [hv] at hr; cases hr
+        | ok r =>
+          obtain ⟨h2, w⟩ := r
+          rw [hv] at hr
+          simp only at hr
+          rcases List.mem_cons.mp hi with rfl | hi
+          · refine ⟨w, readViews_mono sims rest h2 _ h' memo' hr _ w ?_⟩
+            rw [List.lookup_append, hl]; simp [List.lookup]
+          · exact ih h2 _ h' memo' hr i hi
+
+/-! ### facts about `placeFrom` / `pureRows` -/
+
+theorem placeFrom_getElem? : ∀ (ps : List (Label × Pickled)) (n i : Nat),
+    (placeFrom n ps)[i]? = ps[i]?.map fun lp => (lp.1, ({ cell := n + i, segs := lp.2.segs, nan := lp.2.nan } : Sim)) := by
+  intro ps
+  induction ps with
+  | nil => intro n i; simp [placeFrom]
+  | cons lp rest ih =>
+    intro n i
+    cases i with
+    | zero => simp [placeFrom]
+    | succ i => simp [placeFrom, ih, Nat.add_assoc, Nat.add_comm 1 i]
+
+theorem placeFrom_cells : ∀ (ps : List (Label × Pickled)) (n : Nat),
+    (placeFrom n ps).map (·.2.cell) = List.range' n ps.length := by
+  intro ps
+  induction ps with
+  | nil => intro n; simp [placeFrom]
+  | cons lp rest ih => intro n; simp [placeFrom, ih, List.range'_succ]
+
+theorem placeFrom_labels : ∀ (ps : List (Label × Pickled)) (n : Nat),
+    (placeFrom n ps).map (·.1) = ps.map (·.1) := by
+  intro ps
+  induction ps with
+  | nil => intro n; simp [placeFrom]
+  | cons lp rest ih => intro n; simp [placeFrom, ih]
+
+theorem pureRows_getElem? (w : Worker) (c : Content) :
+    ∀ (rows : List (Label × Row)) (ps : List (Label × Pickled)), pureRows w c rows = .ok ps →
+      ∀ (i : Nat) (lp : Label × Pickled), ps[i]? = some lp → ∃ lr : Label × Row, rows[i]? = some lr ∧ lr.1 = lp.1 ∧ rowPure w c lr.2 = .ok lp.2 := by
+  intro rows
+  induction rows with
+  | nil => intro ps h i lp hi; simp [pureRows] at h; subst h; simp at hi
+  | cons lr rest ih =>
+    intro ps h i lp hi
+    unfold pureRows at h
+    cases hp : rowPure w c lr.2 with
+    | error e => rw [hp] at h; cases h
+    | ok p =>
+      rw [hp] at h
+      simp only at h
+      cases hrest : pureRows w c rest with
+      | error e => rw [hrest] at h; cases h
+      | ok ps' =>
+        rw [hrest] at h
+        simp only at h
+        cases h
+        cases i with
+        | zero => simp at hi; subst hi; exact ⟨lr, by simp, rfl, hp⟩
+        | succ i =>
+          simp at hi
+          obtain ⟨lr', h1, h2, h3⟩ := ih ps' hrest i lp hi
+          exact ⟨lr', by simpa using h1, h2, h3⟩
+
+theorem pureRows_labels (w : Worker) (c : Content) :
+    ∀ (rows : List (Label × Row)) (ps : List (Label × Pickled)), pureRows w c rows = .ok ps →
+      ps.map (·.1) = rows.map (·.1) := by
+  intro rows
+  induction rows with
+  | nil => intro ps h; simp [pureRows] at h; subst h; rfl
+  | cons lr rest ih =>
+    intro ps h
+    unfold pureRows at h
+    cases hp : rowPure w c lr.2 with
+    | error e => rw [hp] at h; cases h
+    | ok p =>
+      rw [hp] at h
+      simp only at h
+      cases hrest : pureRows w c rest with
+      | error e => rw [hrest] at h; cases h
+      | ok ps' =>
+        rw [hrest] at h
+        simp only at h
+        cases h
+        simp [ih ps' hrest]
+
+/-! ### `dict(res)` -/
+
+theorem dictOf_go {β : Type} : ∀ (rest acc : List (Label × β)), ((acc ++ rest).map (·.1)).Nodup →
+    rest.foldl (fun acc kv =>
+      if (acc.map (·.1)).contains kv.1 then acc.map (fun e => if e.1 == kv.1 then (e.1, kv.2) else e)
+      else acc ++ [kv]) acc = acc ++ rest := by
+  intro rest
+  induction rest with
+  | nil => intro acc _; simp
+  | cons kv rest ih =>
+    intro acc hnd
+    simp only [List.foldl_cons]
+    have hnot : (acc.map (·.1)).contains kv.1 = false := by
+      simp only [List.map_append, List.map_cons] at hnd
+      have := (List.nodup_append.mp hnd).2.2
+      simp only [List.contains_eq_mem, decide_eq_false_iff_not]
+      intro hmem
+      exact this _ hmem _ (List.mem_cons_self) rfl
+    rw [hnot]
+    simp only [Bool.false_eq_true, if_false]
+    rw [ih (acc ++ [kv]) (by simpa using hnd)]
+    simp
+
+
+/-! ### time grids of the workers -/
+
+theorem linspace_length (a b : Rat) (n : Nat) : (linspace a b n).length = n := by
+  unfold linspace
+  by_cases h1 : n ≤ 1
+  · simp only [h1, if_true]
+    by_cases h0 : n = 0
+    · simp [h0]
+    · simp [h0]; omega
+  · simp [h1]
+
+theorem protoIndex_length (steps : Nat) : ∀ (proto : Protocol) (t0 : Rat) (first : Bool),
+    (protoIndex steps t0 first proto).length =
+      proto.length * steps + (if first && !proto.isEmpty then 1 else 0) := by
+  intro proto
+  induction proto with
+  | nil => intro t0 first; simp [protoIndex]
+  | cons st rest ih =>
+    intro t0 first
+    obtain ⟨tEnd, pars⟩ := st
+    simp only [protoIndex, List.length_append, ih, List.length_cons]
+    cases first with
+    | true => simp [linspace_length, Nat.add_mul]; omega
+    | false => simp [linspace_length, Nat.add_mul]; omega
+
+theorem eulerCourse_times (c : Content) : ∀ (ts : List Rat) (t0 : Rat) (y0 : List Rat) (rows : List (Rat × List Rat)),
+    eulerCourse c t0 y0 ts = .ok rows → rows.map (·.1) = ts := by
+  intro ts
+  induction ts with
+  | nil => intro t0 y0 rows h; simp [eulerCourse, pure, Except.pure] at h; subst h; rfl
+  | cons t ts ih =>
+    intro t0 y0 rows h
+    simp only [eulerCourse, bind, Except.bind] at h
+    cases hd : callRhs c t0 y0 with
+    | error e => rw [hd] at h; cases h
+    | ok d =>
+      rw [hd] at h
+      simp only at h
+      cases hr : eulerCourse c t (axpy y0 d (t - t0)) ts with
+      | error e => rw [hr] at h; cases h
+      | ok rest =>
+        rw [hr] at h
+        simp only [pure, Except.pure] at h
+        cases h
+        simp [ih t _ rest hr]
+
+theorem integrateTC_index (c : Content) (ig ig' : Integ) (tps : List Rat) (rows : List (Rat × List Rat))
+    (h : integrateTC c ig tps = .ok (ig', some rows)) : rows.map (·.1) = tcGrid ig.t0 tps := by
+  unfold integrateTC at h
+  by_cases hf : ig.fail
+  · simp [hf, pure, Except.pure] at h
+  · simp only [hf] at h
+    cases hg : tcGrid ig.t0 tps with
+    | nil => rw [hg] at h; simp at h
+    | cons t0 rest =>
+      rw [hg] at h
+      simp only [Bool.false_eq_true, if_false, bind, Except.bind] at h
+      cases hr : eulerCourse c t0 ig.y0 rest with
+      | error e => rw [hr] at h; cases h
+      | ok rs =>
+        rw [hr] at h
+        simp only [pure, Except.pure] at h
+        cases h
+        simp [eulerCourse_times c rest t0 ig.y0 rs hr]
+
+theorem simInit_t0 (cfg : EulerCfg) (c : Content) (ig : Integ) (h : simInit cfg c = .ok ig) : ig.t0 = 0 := by
+  unfold simInit at h
+  simp only [bind, Except.bind] at h
+  cases h1 : createCache c with
+  | error e => rw [h1] at h; cases h
+  | ok cache =>
+    rw [h1] at h
+    simp only at h
+    cases h2 : getRhsQ c (some cache.init) 0 with
+    | error e => rw [h2] at h; cases h
+    | ok _ =>
+      rw [h2] at h
+      simp only at h
+      cases h3 : callRhs c 0 (cache.init.map (·.2)) with
+      | error e => rw [h3] at h; cases h
+      | ok d0 =>
+        rw [h3] at h
+        simp only [pure, Except.pure] at h
+        cases h
+        rfl
+
+/-- the time index of a successful time-course worker result is `tcIndex`, and the model is left as it was -/
+theorem tcRun_index (cfg : EulerCfg) (tps : List Rat) (c c' : Content) (segs : List Seg)
+    (h : tcRun cfg tps c = .ok (c', some segs)) :
+    (segs.flatMap (·.rows)).map (·.1) = tcIndex tps ∧ c' = c := by
+  unfold tcRun at h
+  simp only [bind, Except.bind] at h
+  cases hi : simInit cfg c with
+  | error e => rw [hi] at h; cases h
+  | ok ig =>
+    rw [hi] at h
+    simp only at h
+    cases hl : tps.getLast? with
+    | none => rw [hl] at h; cases h
+    | some last =>
+      rw [hl] at h
+      simp only at h
+      by_cases hle : last ≤ 0
+      · simp [hle] at h
+      · simp only [hle, if_false] at h
+        cases hr : integrateTC c ig (tps.filter fun t => decide (0 ≤ t)) with
+        | error e => rw [hr] at h; cases h
+        | ok r =>
+          obtain ⟨ig', res⟩ := r
+          rw [hr] at h
+          simp only at h
+          cases res with
+          | none => simp [pure, Except.pure] at h
+          | some rows =>
+            simp only at h
+            cases hs : snapshot c with
+            | error e => rw [hs] at h; cases h
+            | ok p =>
+              rw [hs] at h
+              simp only [pure, Except.pure] at h
+              cases h
+              have := integrateTC_index c ig ig' _ rows hr
+              rw [simInit_t0 cfg c ig hi] at this
+              simp [tcIndex, this]
+
+theorem ssRun_shape (cfg : EulerCfg) (c c' : Content) (segs : List Seg)
+    (h : ssRun cfg c = .ok (c', some segs)) :
+    (segs.flatMap (·.rows)).length = 1 ∧ c' = c := by
+  unfold ssRun at h
+  simp only [bind, Except.bind] at h
+  cases hi : simInit cfg c with
+  | error e => rw [hi] at h; cases h
+  | ok ig =>
+    rw [hi] at h
+    simp only at h
+    by_cases hf : ig.fail
+    · simp [hf, pure, Except.pure] at h
+    · simp only [hf, Bool.false_eq_true, if_false] at h
+      cases he : eulerSteps c cfg.h cfg.nss 0 ig.y0orig with
+      | error e => rw [he] at h; cases h
+      | ok ty =>
+        obtain ⟨t, y⟩ := ty
+        rw [he] at h
+        simp only at h
+        cases hs : snapshot c with
+        | error e => rw [hs] at h; cases h
+        | ok p =>
+          rw [hs] at h
+          simp only [pure, Except.pure] at h
+          cases h
+          simp
+
+
 end Mxl.C09
